@@ -38,6 +38,8 @@ type stubPeer struct {
 	seen  int32
 	lack  map[common.Hash]bool // nodes this peer does not have: it answers, but without them
 	more  []*Src               // further sources this peer can answer from
+	bad   common.Hash          // the first badN replies containing this node carry it altered but decodable
+	badN  int32
 }
 
 func (p *stubPeer) Head() (common.Hash, *big.Int)                                { return common.Hash{}, new(big.Int) }
@@ -58,6 +60,11 @@ func (p *stubPeer) RequestNodeData(kind types.TrieKind, hashes []common.Hash) er
 			continue
 		}
 		if b, err := p.src.db.Get(h[:]); err == nil {
+			if h == p.bad && atomic.AddInt32(&p.badN, -1) >= 0 {
+				if c := softCorrupt(p.src, h, b); c != nil {
+					b = c
+				}
+			}
 			blobs = append(blobs, b)
 			continue
 		}
@@ -388,6 +395,24 @@ func (c *launchCampaign) history(name, entry string, in *CaseIn, dst *youdb.MemD
 			expect = "nil"
 		}
 		c.judgeX(name, entry, e, wait(res, long), pend, true, expect)
+	case "full_reply_with_altered_leaf":
+		// an otherwise honest peer: its first two replies that contain one particular
+		// leaf (or code blob) carry it with one byte changed - same length of reply,
+		// still decodable; afterwards it answers correctly
+		var x common.Hash
+		for _, h := range src.all {
+			if b, _ := src.db.Get(h[:]); softCorrupt(src, h, b) != nil {
+				x = h
+				if h[0]&1 == 1 {
+					break
+				}
+			}
+		}
+		e.startFetcher()
+		e.l.RegisterPeer("p0", &stubPeer{id: "p0", l: e.l, src: e.src, limit: -1, bad: x, badN: 2})
+		e.log(fmt.Sprintf("peer p0 registered: full-length replies, the first two containing node %x carry it with one byte altered", x[:6]))
+		res, pend := e.launch(entry)
+		c.judgeX(name, entry, e, wait(res, long), pend, true, "nil")
 	case "invalid_node_honest_peers":
 		// the source itself holds something process must reject (a storage root that is
 		// not a trie node, a leaf that is not an account): "invalid trie node"
@@ -523,6 +548,7 @@ var launchHistories = []struct {
 	reps int
 	odd  bool // runs on the sources whose content process() must reject
 }{
+	{"full_reply_with_altered_leaf", 2, false},
 	{"lack_node_single_peer", 2, false},
 	{"lack_node_all_peers", 2, false},
 	{"lack_root_all_peers", 1, false},
